@@ -262,3 +262,4 @@ for _pid in ('C01', 'C02', 'C03', 'C04', 'C05', 'C06', 'C07', 'C08', 'C09', 'C10
 more('C18', 'sibling agreement on the digit type', 'C18.n every 8-bit array of measured digits in cirq.sim is unsigned')
 more('C02', 'sibling agreement on the digit type', 'C02.o every 8-bit array of measured digits in cirq.sim is unsigned (terminal sampling and per-repetition recording agree for qudit digits >= 128)')
 more('C02', 'sibling agreement of the two confusion routines', 'C02.p each routine reads the row digits from the array it writes (entries of a confusion map act in sequence on both paths)')
+more('C18', 'unrolled-view rule on per-key shape derivation', 'C18.o per-key shapes derived with the one-key-per-operation protocols walk the operations sub-circuits stand for')
